@@ -5,7 +5,8 @@ CONSTANTS FullRank = 4
  CKeep = 2
  XKeep = 2
  MoreTypes = 1
- TKeep = 3
+ TKeep = 4
+ I32Both = 0
  Budget = 1500
 INVARIANT InDomain
 INVARIANT ExplicitIsPermuted
